@@ -29,12 +29,13 @@ class Ob:
     """One obligation = one solver-decided harness function (optionally one partition of it)."""
 
     def __init__(self, function, timeout=60, pins=None, name=None, kind='crosshair',
-                 min_witness=1, clause_hint=None):
+                 min_witness=1, need_kinds=()):
         self.function = function
         self.timeout = timeout
         self.pins = dict(pins or {})
         self.kind = kind
         self.min_witness = min_witness
+        self.need_kinds = tuple(need_kinds)
         if name is None:
             name = function
             if self.pins:
@@ -186,6 +187,9 @@ def main(argv=None):
             if res.get('witness', 0) < ob.min_witness:
                 harness_errors.append('%s: vacuous (confirmed but witness predicate reached on %d paths)'
                                       % (ob.name, res.get('witness', 0)))
+            elif [k for k in ob.need_kinds if not (res.get('witness_kinds') or {}).get(k)]:
+                harness_errors.append('%s: vacuous (no explored path reached witness kind(s) %s)' % (
+                    ob.name, [k for k in ob.need_kinds if not (res.get('witness_kinds') or {}).get(k)]))
             else:
                 discharged += 1
         elif v == 'counterexample':
